@@ -4,34 +4,81 @@
 #define WV_GHOST_H
 #include "hash_spec.h"
 /* --- hashes: log of compression-function calls (P-C) observed at one harness-chosen call number and byte index (P-F) */
-unsigned long long wv_hl_n;       /* number of compression calls so far */
-unsigned long long wv_hl_watch;   /* the call whose block is observed */
+/* the mutable part of the log is ONE object (a single assigns target keeps CBMC's frame checks cheap) */
+struct wv_hl_t
+{
+  unsigned long long n;          /* number of compression calls so far */
+  unsigned char wbyte;           /* byte wv_g of the block given to call wv_hl_watch */
+  const unsigned char *wptr;     /* pointer given to call wv_hl_watch */
+  const unsigned char *fptr;     /* arguments of the last final-block call: tail pointer, tail length, bit count before */
+  unsigned fr;
+  unsigned long long ftotal;
+  unsigned rounds;               /* rounds executed by the current compression call */
+  struct wv_v8 { spec_u32 v[8]; } snap_h, snap_t;
+} wv_hl;
+#define wv_hl_n wv_hl.n
+#define wv_hl_wbyte wv_hl.wbyte
+#define wv_hl_wptr wv_hl.wptr
+#define wv_hl_fptr wv_hl.fptr
+#define wv_hl_fr wv_hl.fr
+#define wv_hl_ftotal wv_hl.ftotal
+#define wv_rounds wv_hl.rounds
+#define wv_snap_h wv_hl.snap_h.v
+#define wv_snap_t wv_hl.snap_t.v
+unsigned long long wv_hl_watch;   /* the call whose block is observed (chosen by the harness, never assigned) */
 unsigned wv_g;                    /* observed byte index inside a 64-byte block */
 unsigned wv_gw;                   /* observed word index inside a message schedule */
-unsigned char wv_hl_wbyte;        /* byte wv_g of the block given to call wv_hl_watch */
-const unsigned char *wv_hl_wptr;   /* pointer given to call wv_hl_watch */
-const unsigned char *wv_hl_fptr;   /* arguments of the last final-block call: tail pointer, tail length, bit count before */
-unsigned wv_hl_fr;
-unsigned long long wv_hl_ftotal;
-unsigned wv_rounds;               /* rounds executed by the current compression call */
-spec_u32 wv_snap_h[8], wv_snap_t[8];
+unsigned char *wv_hl_out;         /* digest buffer of the last driver call (getStringHash / getFileHash) */
 #define WV_ARR(a) __CPROVER_object_upto(a, sizeof(a))
-#define WV_HGHOSTS wv_hl_n, wv_hl_wbyte, wv_hl_wptr, wv_hl_fptr, wv_hl_fr, wv_hl_ftotal, wv_rounds, WV_ARR(wv_snap_h), WV_ARR(wv_snap_t)
+#define WV_HGHOSTS wv_hl
 #define WV_HLOG_BLOCK(p) { if (wv_hl_n == wv_hl_watch) { wv_hl_wbyte = (p)[wv_g]; wv_hl_wptr = (p); } wv_hl_n++; }
 #define WV_HLOG_FINAL(p, r, total) { wv_hl_fptr = (p); wv_hl_fr = (r); wv_hl_ftotal = (total); }
 #define WV_MD5_EQ(m, a, b, c, d) ((m).v[0] == (a) && (m).v[1] == (b) && (m).v[2] == (c) && (m).v[3] == (d))
-#define WV_SNAP_H(a, n) { for (int wv_k = 0; wv_k < (n); ++wv_k) wv_snap_h[wv_k] = (a)[wv_k]; }
-#define WV_SNAP_T(a, n) { for (int wv_k = 0; wv_k < (n); ++wv_k) wv_snap_t[wv_k] = (a)[wv_k]; }
+#define WV_V8(a, n) ((struct wv_v8){{(a)[0], (a)[1], (a)[2], (a)[3], (n) > 4 ? (a)[(n) > 4 ? 4 : 0] : 0, (n) > 5 ? (a)[(n) > 5 ? 5 : 0] : 0, (n) > 6 ? (a)[(n) > 6 ? 6 : 0] : 0, (n) > 7 ? (a)[(n) > 7 ? 7 : 0] : 0}})
+/* one struct assignment = one frame check */
+#define WV_SNAP_H(a, n) { wv_hl.snap_h = WV_V8(a, n); }
+#define WV_SNAP_T(a, n) { wv_hl.snap_t = WV_V8(a, n); }
 /* --- hashing buffer (filebuffer64) as an abstract stream of units: [64-byte prefix block] 64, 64, ..., 64, short (< 64) */
 unsigned long long wv_fb_left0;   /* bytes left in the stream when getFileHash started */
 #define WV_FB(p) ((filebuffer64 *)(p))
 #define WV_FILE_STATE(f) (f)->pos, (f)->eof
 #define WV_FB_STATE(fb) WV_ARR((fb)->b), (fb)->has_extra, (fb)->total, (fb)->now, (fb)->tail, (fb)->fp->pos, (fb)->fp->eof
 /* bytes the stream will still deliver: prefix block, buffered units from `now` on, the buffered tail, the rest of the file */
-#define WV_FB_LEFT(fb) (((fb)->has_extra ? 64ull : 0ull) + ((fb)->now <= (fb)->total ? 64ull * ((fb)->total - (fb)->now) + (fb)->tail : 0ull) + ((fb)->fp->len - (fb)->fp->pos))
+/* (the _F variants name the file object explicitly: CBMC cannot resolve a dereference through a pointer field that a contract has just havocked) */
+#define WV_FB_LEFT_F(fb, f) (((fb)->has_extra ? 64ull : 0ull) + ((fb)->now <= (fb)->total ? 64ull * ((fb)->total - (fb)->now) + (fb)->tail : 0ull) + ((f)->len - (f)->pos))
+#define WV_FB_LEFT(fb) WV_FB_LEFT_F(fb, (fb)->fp)
 #define WV_FB_DONE(fb) ((fb)->now > (fb)->total)
 /* representation invariant: a buffer that is not full means the file is exhausted */
-#define WV_FB_OK(fb) ((fb)->fp->open && (fb)->fp->pos <= (fb)->fp->len && (fb)->fp->len < (1ull << 58) && (fb)->total <= filebuffer64__HBUF_SZ && (fb)->tail < 64 && \
+#define WV_FB_OK_F(fb, f) ((f)->open && (f)->pos <= (f)->len && (f)->len < (1ull << 58) && (fb)->total <= filebuffer64__HBUF_SZ && (fb)->tail < 64 && \
   (fb)->now <= (fb)->total + 1 && (fb)->now <= filebuffer64__HBUF_SZ && ((fb)->total == filebuffer64__HBUF_SZ ==> (fb)->tail == 0) && \
-  (((fb)->total < filebuffer64__HBUF_SZ) ==> (fb)->fp->pos == (fb)->fp->len))
+  (((fb)->total < filebuffer64__HBUF_SZ) ==> (f)->pos == (f)->len))
+#define WV_FB_OK(fb) WV_FB_OK_F(fb, (fb)->fp)
+/* --- HMAC: length of the authenticated region when getres started; copy of the tag before its buffer is freed */
+unsigned long long wv_flen0;
+struct wv_tag_t { unsigned char b[32]; } wv_tagv;
+#define wv_tag wv_tagv.b
+#define WV_T1(p, n, k) ((k) < (n) ? (p)[(k) < (n) ? (k) : 0] : 0)
+#define WV_T8(p, n, k) WV_T1(p, n, k), WV_T1(p, n, k + 1), WV_T1(p, n, k + 2), WV_T1(p, n, k + 3), WV_T1(p, n, k + 4), WV_T1(p, n, k + 5), WV_T1(p, n, k + 6), WV_T1(p, n, k + 7)
+#define WV_SNAP_TAG(p, n) { wv_tagv = (struct wv_tag_t){{WV_T8(p, n, 0), WV_T8(p, n, 8), WV_T8(p, n, 16), WV_T8(p, n, 24)}}; }
+/* --- ghost file: one harness-chosen absolute offset of the output file is observed (P-F) */
+unsigned long long wv_wP;         /* observed output offset (chosen by the harness, never assigned) */
+struct wv_w_t
+{
+  unsigned char wbyte;            /* the byte most recently written at wv_wP */
+  _Bool seen;                     /* some write covered wv_wP */
+  unsigned long long count;       /* number of writes that covered wv_wP */
+} wv_w;
+#define wv_wbyte wv_w.wbyte
+#define wv_wseen wv_w.seen
+#define wv_wcount wv_w.count
+#define WV_FILE_WSTATE(f) *(f), wv_w
+#define WV_TAGEQ1(o, L, k) ((L) <= (k) || (o)[k] == wv_tag[k])
+#define WV_TAGEQ8(o, L, k) (WV_TAGEQ1(o, L, k) && WV_TAGEQ1(o, L, k + 1) && WV_TAGEQ1(o, L, k + 2) && WV_TAGEQ1(o, L, k + 3) && WV_TAGEQ1(o, L, k + 4) && WV_TAGEQ1(o, L, k + 5) && WV_TAGEQ1(o, L, k + 6) && WV_TAGEQ1(o, L, k + 7))
+/* all L bytes of o equal the computed tag */
+#define WV_TAGEQ(o, L) (WV_TAGEQ8(o, L, 0) && WV_TAGEQ8(o, L, 8) && WV_TAGEQ8(o, L, 16) && WV_TAGEQ8(o, L, 24))
+
+/* the ghost copy is the tag: wv_tag[k] == p[k] for every k < L */
+#define WV_TAGIS1(p, L, k) ((L) <= (k) || (p)[k] == wv_tag[k])
+#define WV_TAGIS8(p, L, k) (WV_TAGIS1(p, L, k) && WV_TAGIS1(p, L, k + 1) && WV_TAGIS1(p, L, k + 2) && WV_TAGIS1(p, L, k + 3) && WV_TAGIS1(p, L, k + 4) && WV_TAGIS1(p, L, k + 5) && WV_TAGIS1(p, L, k + 6) && WV_TAGIS1(p, L, k + 7))
+#define WV_TAG_IS(p, L) (WV_TAGIS8(p, L, 0) && WV_TAGIS8(p, L, 8) && WV_TAGIS8(p, L, 16) && WV_TAGIS8(p, L, 24))
 #endif
